@@ -494,6 +494,13 @@ def gen_case(rng, long_only):
         if sum(abs(x) for x in w.values()) == target:
             w[k0] += 10.0 ** -nd * (1 if w[k0] >= 0 else -1)
         case['near_normalised'] = True
+    if rng.random() < 0.5 and len(w) > 1:
+        # the weight dict as an alpha model may build it: keys in no particular order
+        ks = list(w)
+        rng.shuffle(ks)
+        w = {a: w[a] for a in ks}
+        case['weights'] = w
+        case['shuffled_keys'] = True
     inv = rng.random()
     if inv >= 0.12 and rng.random() < 0.35:
         more = []
